@@ -47,12 +47,21 @@ unsafe impl GlobalAlloc for VAlloc {
         if q != 0 && q == ptr as usize {
             let _ = QNEXT.try_with(|c| c.set(0));
             let n = QLEN.try_with(|c| c.get()).unwrap_or(QN);
+            // a block that is already quarantined is being freed a second time: swallow it
+            let dup = QUAR
+                .try_with(|a| (0..n.min(QN)).any(|i| a[i].get().0 == ptr as usize))
+                .unwrap_or(false);
+            if dup {
+                return;
+            }
             if n < QN {
                 let ok = QUAR
                     .try_with(|a| a[n].set((ptr as usize, layout.size(), layout.align())))
                     .is_ok();
                 if ok {
                     let _ = QLEN.try_with(|c| c.set(n + 1));
+                    // poison: any later write into the freed block is found by check_quarantine()
+                    unsafe { std::ptr::write_bytes(ptr, 0xDD, layout.size()) };
                     return;
                 }
             }
@@ -98,6 +107,32 @@ impl Drop for CbGuard {
     }
 }
 
+/// RAII: the harness itself calls into the crate from inside a call-back (cloning, invoking or
+/// dropping a child waker runs the crate's waker vtable): count allocations made there.
+pub struct ReenterGuard(u32);
+impl ReenterGuard {
+    #[inline]
+    pub fn new() -> Self {
+        let cb = CB.with(|c| c.replace(0));
+        SUT.with(|c| c.set(c.get() + 1));
+        ReenterGuard(cb)
+    }
+}
+impl Drop for ReenterGuard {
+    #[inline]
+    fn drop(&mut self) {
+        let _ = SUT.try_with(|c| c.set(c.get().saturating_sub(1)));
+        let _ = CB.try_with(|c| c.set(self.0));
+    }
+}
+
+/// run `f` (a waker clone / wake / drop) as crate code for the purpose of allocation counting
+#[inline]
+pub fn vt<R>(f: impl FnOnce() -> R) -> R {
+    let _g = ReenterGuard::new();
+    f()
+}
+
 #[inline]
 pub fn sut<R>(f: impl FnOnce() -> R) -> R {
     let _g = SutGuard::new();
@@ -124,6 +159,23 @@ pub fn set_poison(on: bool) {
 pub fn quarantine_next(ptr: usize) {
     QNEXT.with(|c| c.set(ptr));
 }
+/// Look for writes into quarantined (freed, poisoned) blocks: (block address, size, offset, byte found).
+pub fn check_quarantine() -> Vec<(usize, usize, usize, u8)> {
+    let n = QLEN.with(|c| c.get());
+    let mut out = Vec::new();
+    for i in 0..n.min(QN) {
+        let (p, s, _a) = QUAR.with(|q| q[i].get());
+        if p == 0 {
+            continue;
+        }
+        let bytes = unsafe { std::slice::from_raw_parts(p as *const u8, s) };
+        if let Some(off) = bytes.iter().position(|&b| b != 0xDD) {
+            out.push((p, s, off, bytes[off]));
+        }
+    }
+    out
+}
+
 /// Really free everything that was quarantined on this thread.
 pub fn release_quarantine() {
     QNEXT.with(|c| c.set(0));
